@@ -1604,7 +1604,20 @@ func ruleFindRoot(c *Ctx) []Obligation {
 					continue
 				}
 				if x.X == owner || x.Y == owner {
-					continue // m != root
+					// m != root — where root is the node the current tree is rooted at, not ITS owner: a
+					// submodule's private tree is rooted at the submodule, whose owner is m as well
+					other := x.X
+					if other == owner {
+						other = x.Y
+					}
+					viaOwner := derivesFrom(other, func(y ssa.Value) bool {
+						call, isC := y.(*ssa.Call)
+						return isC && call != owner && (calleeName(call) == "module" || calleeName(call) == "belongingModule")
+					})
+					if viaOwner {
+						extra = c.InstrPos(gg.If) + " (the owner is compared with the owner of the current root, which is the same module for a submodule's own tree)"
+					}
+					continue
 				}
 				extra = c.InstrPos(gg.If)
 			case *ssa.Extract:
@@ -1849,6 +1862,80 @@ func ruleKindConst(c *Ctx) []Obligation {
 		if !seenType[t] {
 			obs = append(obs, bad(R, fmt.Sprintf("*%s is converted to kind %s", t, k), c.Pos(toEntry.Pos()), "no arm of the conversion stores this kind"))
 		}
+	}
+	// an entry made from scratch (a composite literal, not converted from a statement) that becomes an rpc's input or
+	// output carries the kind: the conversion of an *Input / *Output statement sets it, a literal must say it
+	for _, fn := range c.Funcs {
+		if fn.Blocks == nil || !c.isRepoFn(fn) {
+			continue
+		}
+		k2 := 0
+		eachInstr(fn, func(in ssa.Instruction) {
+			al, isA := in.(*ssa.Alloc)
+			if !isA || !al.Heap {
+				return
+			}
+			pt, isP := al.Type().(*types.Pointer)
+			if !isP || namedOf(pt.Elem()) != m.entry {
+				return
+			}
+			// does this fresh entry reach RPCEntry.Input / Output (here, or as an argument of a callee that stores
+			// its parameter there)?
+			slot := ""
+			var reach func(v ssa.Value, f2 *ssa.Function, depth int)
+			reach = func(v ssa.Value, f2 *ssa.Function, depth int) {
+				if depth > 2 || v.Referrers() == nil {
+					return
+				}
+				for _, r := range *v.Referrers() {
+					switch x := r.(type) {
+					case *ssa.Store:
+						if x.Val == v {
+							if _, f, _ := fieldOf(x.Addr); f == m.fIn {
+								slot = "Input"
+							} else if f == m.fOut && slot == "" {
+								slot = "Output"
+							}
+						}
+					case ssa.CallInstruction:
+						cal := x.Common().StaticCallee()
+						if cal == nil || !c.isRepoFn(cal) || cal.Blocks == nil {
+							continue
+						}
+						for i, a := range x.Common().Args {
+							if a == v && i < len(cal.Params) {
+								reach(cal.Params[i], cal, depth+1)
+							}
+						}
+					}
+				}
+			}
+			reach(al, fn, 0)
+			if slot == "" {
+				return
+			}
+			k2++
+			con := fmt.Sprintf("%s: entry literal #%d that becomes an rpc input/output says its kind", c.FnName(fn), k2)
+			kindSet := false
+			for _, r := range *al.Referrers() {
+				if fa, isFA := r.(*ssa.FieldAddr); isFA {
+					if _, f, _ := fieldOf(fa); f == fKind {
+						for _, rr := range *fa.Referrers() {
+							if st, isS := rr.(*ssa.Store); isS && st.Addr == ssa.Value(fa) {
+								if kv, okk := constInt(st.Val); okk && (kindName[kv] == "InputEntry" || kindName[kv] == "OutputEntry") {
+									kindSet = true
+								}
+							}
+						}
+					}
+				}
+			}
+			if kindSet {
+				obs = append(obs, ok(R, con, c.InstrPos(al), "Kind: InputEntry / OutputEntry in the literal"))
+			} else {
+				obs = append(obs, bad(R, con, c.InstrPos(al), "an entry made from a literal is installed as an rpc's "+strings.ToLower(slot)+" (or handed to a helper that installs it) without a kind: it keeps the zero kind, so `output is read-only whatever its config` does not hold for what is later grafted under it"))
+			}
+		})
 	}
 	// constructors: directories make Dir, leaves do not
 	for _, cn := range []struct {
